@@ -54,32 +54,39 @@ func VP_C09_ws() {
 
 //vp:property C09
 //vp:flag lockset
-//vp:bounds one legacy tunnel A (RDG_OUT_DATA request, then RDG_IN_DATA request running the packet loop: full set-up, one DATA packet, then CLOSE_CHANNEL while the backend has sent one chunk and stays open) concurrent with one websocket tunnel B (full set-up, DATA, then the client drops); idle timeout arbitrary
-//vp:assume as VP_C09_ws
+//vp:bounds one legacy tunnel A (RDG_OUT_DATA request, then RDG_IN_DATA request running the packet loop: full set-up, one DATA packet, then CLOSE_CHANNEL while the backend has sent one chunk and stays open) concurrent with one websocket tunnel B (full set-up, DATA, then the client drops) and with a further RDG_OUT_DATA or RDG_IN_DATA request C that carries A's connection id (another client, or a retry); idle timeout arbitrary
+//vp:assume as VP_C09_ws; A's RDG_OUT_DATA request has completed before the others start (a client opens IN after OUT was accepted; the third request needs the id to be remembered)
 //vp:reach done
 func VP_C09_mixed() {
 	vpThread("setup")
 	vpResetHandlers()
 	g := &Gateway{IdleTimeout: int(int32(vpU32("idle")))}
-	outA, inA, trB := &vpTransport{}, vpScript(5, 1), vpScript(5, 0)
+	outA, inA, trB, outC := &vpTransport{}, vpScript(5, 1), vpScript(5, 0), &vpTransport{}
 	inA.yieldOnRead, trB.yieldOnRead = true, true
-	idA, idB := vpUser(), vpUser()
+	idA, idB, idC := vpUser(), vpUser(), vpUser()
 	tB := &Tunnel{RDGId: "conn-B", User: idB, RemoteAddr: "10.0.0.2:1"}
 	vpBackendChunk = []byte{9, 8, 7}
-	mk := func(method string) *http.Request {
+	mk := func(id identity.Identity, method string) *http.Request {
 		r := &http.Request{Method: method, Header: http.Header{"Rdg-Connection-Id": {"conn-A"}}}
-		return identity.AddToRequestCtx(idA, r)
+		return identity.AddToRequestCtx(id, r)
+	}
+	g.HandleGatewayProtocol(&vpHTTPW{hdr: http.Header{}, tr: outA}, mk(idA, MethodRDGOUT))
+	methodC := MethodRDGOUT
+	if vpBool("third-request-is-rdg-in-data") {
+		methodC = MethodRDGIN
 	}
 	vpPar(func() {
-		vpThread("A")
-		vpNextTransportFor(outA)
-		g.HandleGatewayProtocol(&vpHTTPW{hdr: http.Header{}}, mk(MethodRDGOUT))
-		vpNextTransportFor(inA)
-		g.HandleGatewayProtocol(&vpHTTPW{hdr: http.Header{}}, mk(MethodRDGIN))
+		vpThread("C")
+		g.HandleGatewayProtocol(&vpHTTPW{hdr: http.Header{}, tr: outC}, mk(idC, methodC))
 	}, func() {
-		vpThread("B")
-		vpNextTransportFor(trB)
-		g.handleWebsocketProtocol(vpCtx(), nil, tB)
+		vpPar(func() {
+			vpThread("A")
+			g.HandleGatewayProtocol(&vpHTTPW{hdr: http.Header{}, tr: inA}, mk(idA, MethodRDGIN))
+		}, func() {
+			vpThread("B")
+			vpNextTransportFor(trB)
+			g.handleWebsocketProtocol(vpCtx(), nil, tB)
+		})
 	})
 	vpRunTasks()
 	vpThread("setup")
